@@ -102,7 +102,6 @@ def harness(g, chart, level, canary=False):
         inv_seen.append((i, a, d))
         times_seen.append(t)
         return True
-    it._evaluator._context.update({'TM': TM, 'MOVE': MOVE, 'CI': CI}) if False else None
     ctx = it.context
     ctx['TM'], ctx['MOVE'], ctx['CI'] = TM, MOVE, CI
     started = []
